@@ -521,15 +521,21 @@ theorem header_glue (b1 b2 b3 b4 b5 b6 R E : List Str) :
     b1 ++ (b2 ++ (b3 ++ (b4 ++ (b5 ++ b6 ++ [])))) ++ R ++ E = b1 ++ b2 ++ b3 ++ b4 ++ b5 ++ b6 ++ R ++ E := by
   simp
 
-open PolyVerif.Spec.GbStrict (wfSeq wfRefIndex sortedEntries) in
-theorem refs_approx : ∀ (refs : List Reference) (i : Nat), wfRefIndex i refs = true →
-    listApprox refApprox refs (PolyVerif.GbLayout.toRefs i (refs.map toRRef)) = true
-  | [], _, _ => rfl
-  | r :: rs, i, h => by
-    simp only [wfRefIndex, Bool.and_eq_true, beq_iff_eq] at h
-    simp only [List.map_cons, PolyVerif.GbLayout.toRefs, listApprox, refApprox, toRRef, Bool.and_eq_true, beq_iff_eq,
-      refs_approx rs (i + 1) h.2, and_true, ofNat_eq_itoa, PolyVerif.GbLayout.refNumber, ↓reduceIte]
-    exact h.1
+open PolyVerif.Spec.GbStrict (refNum withDefaultIndex) in
+/-- the references C01's record states are the writer's, an unset number defaulted to the position -/
+theorem refs_approx : ∀ (refs : List Reference) (i : Nat),
+    listApprox refApprox (withDefaultIndex.go i refs) (PolyVerif.GbLayout.toRefs i (refs.map toRRef)) = true
+  | [], _ => rfl
+  | r :: rs, i => by
+    have hn : PolyVerif.GbLayout.refNumber i (toRRef r) = refNum i r := by
+      unfold PolyVerif.GbLayout.refNumber refNum toRRef
+      simp only []
+      split
+      · exact ofNat_eq_itoa _
+      · rfl
+    simp only [withDefaultIndex.go, List.map_cons, PolyVerif.GbLayout.toRefs, listApprox, refApprox, Bool.and_eq_true,
+      beq_iff_eq, refs_approx rs (i + 1), and_true, hn]
+    simp [toRRef]
 
 theorem feats_approx : ∀ fs : List Feature,
     listApprox featApprox fs ((fs.map toRFeature).map PolyVerif.GbLayout.toFeature) = true
